@@ -105,50 +105,75 @@ structure Dataset (F : Type) where
   nSel : Nat
   Rk : List (List F)
 
+/-- the per-dataset `(N_j, X_j)` that `MultiDatasetTCLLHRatio.evaluate` hands to the single-dataset
+functions, given the `a_jk` table held by the weight service -/
+def datasetsOf (a : List (List F)) (ds : List (Dataset F)) : List (Nat × List F) :=
+  (List.zip a ds).map (fun p =>
+    (p.2.N, (ratioWeighted p.1 p.2.Rk p.2.nSel).map (LLH.xOfRatio p.2.N)))
+
 /-- `MultiDatasetTCLLHRatio.evaluate` given the content `a` of the shared weight service -/
 def evalWith (opa ns : F) (a : List (List F)) (ds : List (Dataset F)) : F :=
-  llrMulti opa ns (fj a)
-    ((List.zip a ds).map (fun p =>
-      (p.2.N, (ratioWeighted p.1 p.2.Rk p.2.nSel).map (LLH.xOfRatio p.2.N))))
+  llrMulti opa ns (fj a) (datasetsOf a ds)
 
 /-- the whole pipeline: weights `W`, yields `Y` (dataset rows), datasets -/
 def stackedLLR (opa ns : F) (W : List F) (Y : List (List F)) (ds : List (Dataset F)) : F :=
   evalWith opa ns (ajk W Y) ds
 
-/-- Operations on one object graph.  The two weight services are *shared*: besides the likelihood
-ratio, the signal generator (or anybody else) recalculates them at its own parameters; the sources of
-the existing `SourceHypoGroupManager` can be changed in place and the change propagated with
-`change_shg_mgr` (`Analysis.change_source`, `Analysis.change_shg_mgr`). -/
-inductive SvcOp (P F : Type) where
-  | recalc (p : P)           -- `SrcDetSigYieldWeightsService.calculate(p)` + `DatasetSignalWeightFactorsService.calculate()`
-  | eval (p : P) (ns : F)    -- `MultiDatasetTCLLHRatio.evaluate`: recalculates both services at `p`, then evaluates
-  | changeSources (W' : List F)   -- new source weights in the shg manager + `change_shg_mgr` on services and LLH ratio
+/-! #### The object graph with its caches
 
-/-- what the object graph remembers: the source weights in the `SourceHypoGroupManager`, the copy of
-them cached by the service (`_src_weight_array_list`), and the last calculated `a_jk` table -/
+What the objects remember between calls: the source weights in the `SourceHypoGroupManager` (`W`),
+the copy of them cached by `SrcDetSigYieldWeightsService` (`_src_weight_array_list`, `Wc`), its
+`_a_jk` table (`a`) and the `_f_j` of `DatasetSignalWeightFactorsService` (`f`).  The low-level
+operations are the methods of the code; each one reads and writes exactly the fields the method
+reads and writes.  In particular the body of `evaluate` reads **only** `f` and `a`. -/
+
 structure SvcState (F : Type) where
   W : List F
   Wc : List F
   a : List (List F)
+  f : List F
 
-/-- one step; `Yof p` are the detector signal yields at source parameters `p`.  `calculate` multiplies
-the yields with the *cached* weights; `change_shg_mgr` re-creates the cache from the manager. -/
-def svcStep {P : Type} (opa : F) (Yof : P → List (List F)) (ds : List (Dataset F))
-    (st : SvcState F) : SvcOp P F → SvcState F × Option F
-  | .recalc p => ({ st with a := ajk st.Wc (Yof p) }, none)
-  | .eval p ns =>
-      ({ st with a := ajk st.Wc (Yof p) }, some (evalWith opa ns (ajk st.Wc (Yof p)) ds))
-  | .changeSources W' => ({ st with W := W', Wc := W' }, none)
+inductive LowOp (P F : Type) where
+  | setWeights (W' : List F)   -- `source.weight = …` / replacing or re-ordering sources in the manager
+  | changeShgMgr               -- `SrcDetSigYieldWeightsService.change_shg_mgr`: re-creates the cached weights
+  | calcA (p : P)              -- `SrcDetSigYieldWeightsService.calculate(p)`:  `a_jk := Wc · Y(p)`
+  | calcF                      -- `DatasetSignalWeightFactorsService.calculate()`:  `f_j := a_j / a`
+  | evalBody (ns : F)          -- the rest of `MultiDatasetTCLLHRatio.evaluate`: `get_weights()`, loop over datasets
 
-/-- run a history, collecting the values returned by the `eval` operations -/
-def svcRun {P : Type} (opa : F) (Yof : P → List (List F)) (ds : List (Dataset F))
-    (st : SvcState F) : List (SvcOp P F) → List F
+def lowStep {P : Type} (opa : F) (Yof : P → List (List F)) (ds : List (Dataset F))
+    (st : SvcState F) : LowOp P F → SvcState F × Option F
+  | .setWeights W' => ({ st with W := W' }, none)
+  | .changeShgMgr => ({ st with Wc := st.W }, none)
+  | .calcA p => ({ st with a := ajk st.Wc (Yof p) }, none)
+  | .calcF => ({ st with f := fj st.a }, none)
+  | .evalBody ns => (st, some (llrMulti opa ns st.f (datasetsOf st.a ds)))
+
+/-- run low-level operations, collecting the values returned by the `evalBody` steps -/
+def lowRun {P : Type} (opa : F) (Yof : P → List (List F)) (ds : List (Dataset F))
+    (st : SvcState F) : List (LowOp P F) → List F
   | [] => []
   | op :: rest =>
-      let r := svcStep opa Yof ds st op
-      match r.2 with
-      | some v => v :: svcRun opa Yof ds r.1 rest
-      | none => svcRun opa Yof ds r.1 rest
+      match (lowStep opa Yof ds st op).2 with
+      | some v => v :: lowRun opa Yof ds (lowStep opa Yof ds st op).1 rest
+      | none => lowRun opa Yof ds (lowStep opa Yof ds st op).1 rest
+
+/-- What users of the object graph do: the signal generator (or anybody) recalculates the shared
+services, the likelihood ratio is evaluated, the sources are changed in place and the change is
+propagated (`Analysis.change_source` / `change_shg_mgr`). -/
+inductive SvcOp (P F : Type) where
+  | recalc (p : P)
+  | eval (p : P) (ns : F)
+  | changeSources (W' : List F)
+
+/-- the calls the code makes for each of them -/
+def expand {P : Type} : SvcOp P F → List (LowOp P F)
+  | .recalc p => [.calcA p, .calcF]
+  | .eval p ns => [.calcA p, .calcF, .evalBody ns]
+  | .changeSources W' => [.setWeights W', .changeShgMgr]
+
+def svcRun {P : Type} (opa : F) (Yof : P → List (List F)) (ds : List (Dataset F))
+    (st : SvcState F) (ops : List (SvcOp P F)) : List F :=
+  lowRun opa Yof ds st (ops.flatMap expand)
 
 /-- the specification: no state but the source weights currently in force -/
 def svcSpec {P : Type} (opa : F) (Yof : P → List (List F)) (ds : List (Dataset F))
